@@ -330,6 +330,13 @@ class Engine:
     def ref_wf(self, st, term, kind, nxt):
         """Well-formedness of a reference-valued term: allocated, and of (a subclass of) its static class."""
         cs = [term >= 0, term < nxt]
+        if kind.cls is None and getattr(kind, 'classes', None):
+            carr = st.heap.get('$cls') if st is not None else None
+            if carr is None:
+                carr = z3.Const('H0:$cls', z3.ArraySort(z3.IntSort(), z3.IntSort()))
+            subs = [x for c_ in kind.classes for x in self.known_subclasses(c_)]
+            c = z3.Select(carr, term)
+            cs.append(z3.Or(term == 0, *[c == self.cls_id(s_) for s_ in subs]))
         if kind.cls is not None and kind.cls in ('Tensor', 'Future', 'WorkFuture'):
             carr = st.heap.get('$cls') if st is not None else None
             if carr is None:
@@ -344,8 +351,18 @@ class Engine:
         conforms to the declared class (one quantified fact per array instead of one fact per read)."""
         if not isinstance(kind, KRef) or key.startswith('$'):
             return
+        ck = ('closed', key, arr.get_id())
+        if ck in self.uf_cache:
+            return
+        self.uf_cache[ck] = True
         r = z3.Int(fresh_name('hr'))
-        f = Vm.forall([r], self.ref_wf(st, z3.Select(arr, r), kind, nxt), patterns=[z3.Select(arr, r)])
+        body = self.ref_wf(st, z3.Select(arr, r), kind, nxt)
+        if key == 'Future.will_be':
+            # type invariant: the value a Future stands for is a (non-null) tensor
+            body = z3.And(body, z3.Implies(self.isinstance_term(st or self.init_state, V(KRef(None), r), 'Future')
+                                           if (st is not None or getattr(self, 'init_state', None) is not None) else z3.BoolVal(True),
+                                           z3.Select(arr, r) != 0))
+        f = Vm.forall([r], body, patterns=[z3.Select(arr, r)])
         if st is None:
             self.facts.append(f)
         else:
@@ -366,6 +383,12 @@ class Engine:
         arr = self.heap_array(st, key, kind)
         self.require(st, obj.term != 0, 'AttributeError', f'.{fname} of None')
         val = coerce(val, kind)
+        if isinstance(kind, KRef) and kind.cls is None and getattr(kind, 'classes', None) and not self.spec_mode:
+            # the field's type invariant (e.g. Tensor | Future | None) is re-established at every store
+            ok = z3.Or(val.term == 0, *[self.isinstance_term(st, val, c_) for c_ in kind.classes])
+            if not z3.is_true(z3.simplify(ok)):
+                self.oblige(st, ok, f'typeinv:{self.site(key)}', kind='typeinv',
+                            text=f'value stored into {key} is None or an instance of {"|".join(kind.classes)}')
         st.heap[key] = z3.Store(arr, obj.term, val.term)
 
     def assume_wellformed(self, st, val: V):
@@ -394,10 +417,13 @@ class Engine:
                 self.fact(st, f)
             refs = self.ref_components(k.val)
             if refs and st.nxt is not None:
-                kk = z3.Const(fresh_name('wk'), k.key.sort())
-                velt = z3.Select(ops.vals(d), kk)
+                # by position (not by key): instantiating at keys[j] creates no new index terms, whereas a
+                # by-key formulation (`k in d ==> ...`) builds keys[idx[k]] and feeds a matching loop
+                jj = z3.Int(fresh_name('wj'))
+                velt = z3.Select(ops.vals(d), z3.Select(ops.keys(d), jj))
                 cs = [self.ref_wf(st, acc(velt), rk, st.nxt) for acc, rk in refs]
-                self.fact(st, Vm.forall([kk], z3.Implies(ops.contains(d, kk), z3.And(*cs)), patterns=[velt]))
+                self.fact(st, Vm.forall([jj], z3.Implies(z3.And(jj >= 0, jj < ops.n(d)), z3.And(*cs)),
+                                        patterns=[z3.Select(ops.keys(d), jj)]))
         elif isinstance(k, KTuple):
             for it in tuple_items(val):
                 self.assume_wellformed(st, it)
@@ -1114,6 +1140,35 @@ class Engine:
                     self.heap_closed(state, key, state.heap[key], kind, state.nxt)
 
         self.fact(st, n >= 0)
+        # 2b. kinds of loop-carried locals: a variable that is e.g. None before the loop and a tensor after
+        # one iteration must be havocked at the *joined* kind.  Dry-run the body once to learn the kinds.
+        snap = (len(self.obligations), len(self.facts), len(self.exits), dict(self.site_counters), len(self.covers),
+                fr.breaks, fr.continues, fr.loop_prefix, fr.loop_counter, len(fr.returns))
+        dry = st.copy()
+        havoc(dry)
+        dry.add(z3.BoolVal(True))
+        fr.breaks, fr.continues = [], []
+        fr.loop_prefix, fr.loop_counter = lid + '.', 0
+        kinds = {}
+        try:
+            self.assign(s.target, at(z3.Int(fresh_name('kdry'))), dry)
+            self.exec_block(s.body, dry)
+            for cs in fr.continues:
+                dry.assign_from(self.merge_states(cs.path, cs, dry))
+            for name in assigned:
+                v_end, v_start = dry.env.get(name), st.env.get(name)
+                if v_end is not None and v_start is not None and v_end.kind != v_start.kind:
+                    kinds[name] = merge(z3.Bool(fresh_name('kc')), v_start, v_end).kind
+        finally:
+            del self.obligations[snap[0]:]
+            del self.facts[snap[1]:]
+            del self.exits[snap[2]:]
+            self.site_counters = snap[3]
+            del self.covers[snap[4]:]
+            fr.breaks, fr.continues, fr.loop_prefix, fr.loop_counter = snap[5:9]
+            del fr.returns[snap[9]:]
+        for name, kd in kinds.items():
+            st.env[name] = coerce(st.env[name], kd)
         # 3. arbitrary iteration
         body = st.copy()
         havoc(body)
@@ -1480,6 +1535,8 @@ class Engine:
         b = self.B.lookup(name)
         if b is not None:
             return b
+        if self.spec_mode and name in self.repo.classes:
+            return meta_value(ClassRef(name))       # contracts may name any repository class
         raise Unsupported(f'unresolved name {name} in {mod}')
 
     def expr_Attribute(self, e, st):
@@ -2010,44 +2067,45 @@ class Engine:
             self.uf_cache['rangeset'] = rs
             self.uf_cache['rangept'] = pt
             self.uf_cache['rangewit'] = rw
-            self.facts.append(Vm.forall([a, b, s_, r], z3.Implies(
-                z3.And(z3.Select(rs(a, b, s_), r), s_ > 0),
-                z3.And(rw(a, b, s_, r) >= 0, r == a + rw(a, b, s_, r) * s_, r < b, r >= a)),
-                patterns=[z3.Select(rs(a, b, s_), r)]))
-            self.facts.append(Vm.forall([a, s_, k], pt(a, s_, k) == a + k * s_, patterns=[pt(a, s_, k)]))
-            self.facts.append(Vm.forall([a, b, s_, k], z3.Implies(
-                z3.And(k >= 0, pt(a, s_, k) < b, s_ > 0), z3.Select(rs(a, b, s_), pt(a, s_, k))),
-                patterns=[z3.MultiPattern(rs(a, b, s_), pt(a, s_, k))]))
             self.facts.append(Vm.forall([a, b, r], z3.Select(rs(a, b, 1), r) == z3.And(a <= r, r < b),
                                         patterns=[z3.Select(rs(a, b, 1), r)]))
-            # derived fact RU (residue uniqueness): instance of the witness axiom + the arithmetic lemma
-            # `a + w1*s == a2 + w2*s and 0 <= a, a2 < s  ==>  a == a2`, which is proved as a stand-alone
-            # quantifier-free obligation (contracts/c06_assignment.py: lemma residue_unique)
-            a2, b2 = z3.Ints('ra2 rb2')
-            self.facts.append(z3.ForAll([a, b, a2, b2, s_, r], z3.Implies(
-                z3.And(z3.Select(rs(a, b, s_), r), z3.Select(rs(a2, b2, s_), r), a >= 0, a < s_, a2 >= 0, a2 < s_),
-                a == a2), patterns=[z3.MultiPattern(z3.Select(rs(a, b, s_), r), z3.Select(rs(a2, b2, s_), r))]))
-            # derived facts RU3 / RU4: for 0 <= a < s, membership of r in range(a, b, s) is `r % s == a`
-            # (same arithmetic lemma; links the set view with Python's % on ranks)
-            I_ = z3.IntSort()
-            if 'pymod' not in self.uf_cache:
-                self.uf_cache['pydiv'] = z3.Function('pydiv', I_, I_, I_)
-                self.uf_cache['pymod'] = z3.Function('pymod', I_, I_, I_)
-            md = self.uf_cache['pymod']
-            self.facts.append(z3.ForAll([a, b, s_, r], z3.Implies(
-                z3.And(z3.Select(rs(a, b, s_), r), a >= 0, a < s_), md(r, s_) == a),
-                patterns=[z3.Select(rs(a, b, s_), r)]))
-            self.facts.append(z3.ForAll([a, b, s_, r], z3.Implies(
-                z3.And(r >= 0, r < b, s_ > 0, md(r, s_) == a), z3.Select(rs(a, b, s_), r)),
-                patterns=[z3.MultiPattern(rs(a, b, s_), md(r, s_))]))
-            # derived fact RU2 (one member per window): two members of the same strided range that lie in
-            # one contiguous window no longer than the stride are equal (lemma window_unique)
-            r2, lo_, hi_ = z3.Ints('rr2 rlo rhi')
-            self.facts.append(z3.ForAll([a, b, s_, r, r2, lo_, hi_], z3.Implies(
-                z3.And(z3.Select(rs(a, b, s_), r), z3.Select(rs(a, b, s_), r2), z3.Select(rs(lo_, hi_, 1), r),
-                       z3.Select(rs(lo_, hi_, 1), r2), hi_ <= lo_ + s_, s_ > 0),
-                r == r2), patterns=[z3.MultiPattern(z3.Select(rs(a, b, s_), r), z3.Select(rs(a, b, s_), r2),
-                                                    z3.Select(rs(lo_, hi_, 1), r), z3.Select(rs(lo_, hi_, 1), r2))]))
+            if 'strided_ranges' in self.contract.theories:
+                self.facts.append(Vm.forall([a, b, s_, r], z3.Implies(
+                    z3.And(z3.Select(rs(a, b, s_), r), s_ > 0),
+                    z3.And(rw(a, b, s_, r) >= 0, r == a + rw(a, b, s_, r) * s_, r < b, r >= a)),
+                    patterns=[z3.Select(rs(a, b, s_), r)]))
+                self.facts.append(Vm.forall([a, s_, k], pt(a, s_, k) == a + k * s_, patterns=[pt(a, s_, k)]))
+                self.facts.append(Vm.forall([a, b, s_, k], z3.Implies(
+                    z3.And(k >= 0, pt(a, s_, k) < b, s_ > 0), z3.Select(rs(a, b, s_), pt(a, s_, k))),
+                    patterns=[z3.MultiPattern(rs(a, b, s_), pt(a, s_, k))]))
+                # derived fact RU (residue uniqueness): instance of the witness axiom + the arithmetic lemma
+                # `a + w1*s == a2 + w2*s and 0 <= a, a2 < s  ==>  a == a2`, which is proved as a stand-alone
+                # quantifier-free obligation (contracts/c06_assignment.py: lemma residue_unique)
+                a2, b2 = z3.Ints('ra2 rb2')
+                self.facts.append(z3.ForAll([a, b, a2, b2, s_, r], z3.Implies(
+                    z3.And(z3.Select(rs(a, b, s_), r), z3.Select(rs(a2, b2, s_), r), a >= 0, a < s_, a2 >= 0, a2 < s_),
+                    a == a2), patterns=[z3.MultiPattern(z3.Select(rs(a, b, s_), r), z3.Select(rs(a2, b2, s_), r))]))
+                # derived facts RU3 / RU4: for 0 <= a < s, membership of r in range(a, b, s) is `r % s == a`
+                # (same arithmetic lemma; links the set view with Python's % on ranks)
+                I_ = z3.IntSort()
+                if 'pymod' not in self.uf_cache:
+                    self.uf_cache['pydiv'] = z3.Function('pydiv', I_, I_, I_)
+                    self.uf_cache['pymod'] = z3.Function('pymod', I_, I_, I_)
+                md = self.uf_cache['pymod']
+                self.facts.append(z3.ForAll([a, b, s_, r], z3.Implies(
+                    z3.And(z3.Select(rs(a, b, s_), r), a >= 0, a < s_), md(r, s_) == a),
+                    patterns=[z3.Select(rs(a, b, s_), r)]))
+                self.facts.append(z3.ForAll([a, b, s_, r], z3.Implies(
+                    z3.And(r >= 0, r < b, s_ > 0, md(r, s_) == a), z3.Select(rs(a, b, s_), r)),
+                    patterns=[z3.MultiPattern(rs(a, b, s_), md(r, s_))]))
+                # derived fact RU2 (one member per window): two members of the same strided range that lie in
+                # one contiguous window no longer than the stride are equal (lemma window_unique)
+                r2, lo_, hi_ = z3.Ints('rr2 rlo rhi')
+                self.facts.append(z3.ForAll([a, b, s_, r, r2, lo_, hi_], z3.Implies(
+                    z3.And(z3.Select(rs(a, b, s_), r), z3.Select(rs(a, b, s_), r2), z3.Select(rs(lo_, hi_, 1), r),
+                           z3.Select(rs(lo_, hi_, 1), r2), hi_ <= lo_ + s_, s_ > 0),
+                    r == r2), patterns=[z3.MultiPattern(z3.Select(rs(a, b, s_), r), z3.Select(rs(a, b, s_), r2),
+                                                        z3.Select(rs(lo_, hi_, 1), r), z3.Select(rs(lo_, hi_, 1), r2))]))
             self.assumptions.add('frozenset(range(a,b,s)) is the set {a + k*s | k >= 0, a + k*s < b} (witness-form axioms + derived residue-uniqueness / window-uniqueness facts)')
         return self.uf_cache['rangeset']
 
